@@ -13,6 +13,7 @@ import (
 	"strings"
 
 	"github.com/libsv/go-bt/v2"
+	"github.com/libsv/go-bt/v2/bscript"
 
 	"verif/internal/gen"
 	"verif/internal/mon"
@@ -141,6 +142,55 @@ var c09JSONEntries = []struct {
 	{"json:UTXO", func(d []byte) error { var u bt.UTXO; return json.Unmarshal(d, &u) }},
 	{"json:UTXO.NodeJSON", func(d []byte) error { u := &bt.UTXO{}; return json.Unmarshal(d, u.NodeJSON()) }},
 	{"json:UTXOs.NodeJSON", func(d []byte) error { var us bt.UTXOs; return json.Unmarshal(d, us.NodeJSON()) }},
+}
+
+// Direct calls of the UnmarshalJSON methods (json.Unmarshaler), without
+// encoding/json's own syntax check in front of them.
+type c09Direct struct {
+	Target string `json:"target"`
+	Raw    string `json:"raw"`
+}
+
+var c09DirectTargets = []struct {
+	name string
+	mk   func() json.Unmarshaler
+}{
+	{"Tx", func() json.Unmarshaler { return bt.NewTx() }},
+	{"Tx.NodeJSON", func() json.Unmarshaler { u, _ := bt.NewTx().NodeJSON().(json.Unmarshaler); return u }},
+	{"Txs.NodeJSON", func() json.Unmarshaler { var t bt.Txs; u, _ := t.NodeJSON().(json.Unmarshaler); return u }},
+	{"Output", func() json.Unmarshaler { return &bt.Output{} }},
+	{"Output.NodeJSON", func() json.Unmarshaler { u, _ := (&bt.Output{}).NodeJSON().(json.Unmarshaler); return u }},
+	{"UTXO", func() json.Unmarshaler { return &bt.UTXO{} }},
+	{"UTXO.NodeJSON", func() json.Unmarshaler { u, _ := (&bt.UTXO{}).NodeJSON().(json.Unmarshaler); return u }},
+	{"UTXOs.NodeJSON", func() json.Unmarshaler { var t bt.UTXOs; u, _ := t.NodeJSON().(json.Unmarshaler); return u }},
+	{"Input", func() json.Unmarshaler { return &bt.Input{} }},
+	{"Script", func() json.Unmarshaler { return &bscript.Script{} }},
+	{"FeeQuote", func() json.Unmarshaler { return bt.NewFeeQuote() }},
+}
+
+func c09JudgeDirect(c *mon.Ctx, in *c09Direct) {
+	for _, t := range c09DirectTargets {
+		if t.name != in.Target {
+			continue
+		}
+		u := t.mk()
+		if u == nil {
+			c.Count("json-direct:not-an-unmarshaler:" + t.name)
+			return
+		}
+		c.Eval(1)
+		var err error
+		if c.Try("json-direct:"+t.name, func() { err = u.UnmarshalJSON([]byte(in.Raw)) }) {
+			if err != nil {
+				c.Count("json-direct:returned-error:" + t.name)
+			} else {
+				c.Count("json-direct:returned-value:" + t.name)
+			}
+			c.Distinct(prng.HashBytes([]byte("direct"), []byte(t.name), []byte(in.Raw)))
+		}
+		return
+	}
+	c.Fault("unknown direct target " + in.Target)
 }
 
 // ---------------------------------------------------------------- allocation meter
@@ -730,6 +780,7 @@ func init() {
 	}
 	jb := mon.Kind(p, "bin", c09JudgeBin)
 	jd := mon.Kind(p, "json", c09JudgeDoc)
+	jdirect := mon.Kind(p, "json-direct", c09JudgeDirect)
 
 	const genericCap = 16 << 20 // bytes the current decoder may be asked for in the generic phases
 
@@ -1048,6 +1099,35 @@ func init() {
 					}
 					for k := 0; k < len(s); k += step {
 						jd(c, &c09Doc{Entry: e.name, Doc: s[:k], Class: "prefix"})
+					}
+				}
+			}
+		}
+		c.Phase("json-direct") // the UnmarshalJSON methods called directly (as a decoder embedding them may do): raw fragments that encoding/json would have refused before calling them, and every prefix of valid documents
+		{
+			frags := []string{"", "\"", "\"\"", "{", "}", "[", "]", "n", "nul", "null", "\"ab", "\"0", "0", "-", "{\"hex\":", "{\"hex\":\"", "[{", "tru", " ", "\x00", "\"\\u", "\"\\", "{\"a\"", ":", ",", "[,]", "{\"vin\":[", "\"\"\"", "'", "[null", "{\"inputs\":[{"}
+			n := uint64(0)
+			for _, t := range c09DirectTargets {
+				for _, f := range frags {
+					n++
+					if c.Case(n) {
+						jdirect(c, &c09Direct{Target: t.name, Raw: f})
+					}
+				}
+			}
+			docs := c09ValidDocs(small[0].t)
+			for _, t := range c09DirectTargets {
+				for _, d := range docs["json:"+t.name] {
+					sdoc := jrender(d)
+					step := 1
+					if len(sdoc) > 800 {
+						step = 5
+					}
+					for k := 0; k <= len(sdoc); k += step {
+						n++
+						if c.Case(n) {
+							jdirect(c, &c09Direct{Target: t.name, Raw: sdoc[:k]})
+						}
 					}
 				}
 			}
